@@ -165,7 +165,12 @@ def fieldMessage {τ : Type} (sub : Nat → List Nat → Option τ) (depth wt : 
 def fieldSkip {σ : Type} (st : σ) (depth wt tag : Nat) (bs : List Nat) : Option (σ × List Nat) :=
   (skipField (2 * bs.length + 2) depth wt tag bs).map (fun r => (st, r))
 
-/-! Encoders (prost `encode`): fields in tag order, defaults omitted (proto3) / `None` omitted. -/
+/-! ## Encoders (prost `encode_raw`)
+
+Fields are written in tag order (prost-derive sorts them), a proto3 scalar equal to its default is
+omitted, `None` is omitted, a proto2 `required` scalar is always written, repeated fields are written
+one element after the other, a nested message is length-prefixed with its `encoded_len` (modelled as
+the length of its encoding). -/
 
 def encBytesField (tag : Nat) (bs : List Nat) : List Nat :=
   writeKey tag 2 ++ writeVarint bs.length ++ bs
@@ -174,5 +179,68 @@ def encVarintField (tag n : Nat) : List Nat := writeKey tag 0 ++ writeVarint n
 
 /-- i32 → the 64-bit two's complement varint prost writes (`value as u64`). -/
 def i32ToU64 (i : Int) : Nat := if 0 ≤ i then i.toNat else (2 ^ 64 - (-i).toNat)
+
+/-- `int64` fields: `value as i64`. -/
+def toI64 (n : Nat) : Int :=
+  if n % 2 ^ 64 < 2 ^ 63 then Int.ofNat (n % 2 ^ 64) else Int.ofNat (n % 2 ^ 64) - Int.ofNat (2 ^ 64)
+
+def encStringField (tag : Nat) (s : List Nat) : List Nat := encBytesField tag s
+/-- `int32` and enumeration fields. -/
+def encInt32Field (tag : Nat) (i : Int) : List Nat := encVarintField tag (i32ToU64 i)
+def encInt64Field (tag : Nat) (i : Int) : List Nat := encVarintField tag (i32ToU64 i)
+def encUInt32Field (tag n : Nat) : List Nat := encVarintField tag n
+def encUInt64Field (tag n : Nat) : List Nat := encVarintField tag n
+def encBoolField (tag : Nat) (b : Bool) : List Nat := encVarintField tag (if b then 1 else 0)
+/-- `message::encode`: key, `encoded_len`, `encode_raw`. -/
+def encMessageField (tag : Nat) (payload : List Nat) : List Nat := encBytesField tag payload
+
+/-- proto3 singular scalar: written unless equal to the default. -/
+def encPlain {α : Type} [DecidableEq α] (enc : α → List Nat) (dflt a : α) : List Nat :=
+  if a = dflt then [] else enc a
+
+/-- `Option` field: written when `Some`. -/
+def encOpt {α : Type} (enc : α → List Nat) : Option α → List Nat
+  | none => []
+  | some a => enc a
+
+/-- repeated field: every element, in order. -/
+def encRep {α : Type} (enc : α → List Nat) : List α → List Nat
+  | [] => []
+  | a :: l => enc a ++ encRep enc l
+
+/-! ## Well-formedness of the values an encoder can be given
+
+The Rust types guarantee these (an `i32` is within the i32 range, a `String` is valid UTF-8, a `Vec`
+is shorter than 2^64); the model's `Int`/`Nat`/`List Nat` do not, so the round-trip theorems state
+them. All are decidable. -/
+
+def okBytes (b : List Nat) : Prop := b.length < 2 ^ 64
+def okString (s : List Nat) : Prop := s.length < 2 ^ 64 ∧ validUtf8 s = true
+def okI32 (i : Int) : Prop := -(2 ^ 31) ≤ i ∧ i < 2 ^ 31
+def okI64 (i : Int) : Prop := -(2 ^ 63) ≤ i ∧ i < 2 ^ 63
+def okU32 (n : Nat) : Prop := n < 2 ^ 32
+def okU64 (n : Nat) : Prop := n < 2 ^ 64
+def okBool (_ : Bool) : Prop := True
+/-- A nested message: well-formed itself and with an encoding shorter than 2^64. -/
+def okMsg {α : Type} (wf : α → Prop) (enc : α → List Nat) (v : α) : Prop := wf v ∧ (enc v).length < 2 ^ 64
+def optAll {α : Type} (p : α → Prop) : Option α → Prop
+  | none => True
+  | some a => p a
+def listAll {α : Type} (p : α → Prop) (l : List α) : Prop := ∀ a ∈ l, p a
+
+instance : DecidablePred okBytes := fun b => inferInstanceAs (Decidable (b.length < 2 ^ 64))
+instance : DecidablePred okString := fun s => inferInstanceAs (Decidable (s.length < 2 ^ 64 ∧ validUtf8 s = true))
+instance : DecidablePred okI32 := fun i => inferInstanceAs (Decidable (-(2 ^ 31) ≤ i ∧ i < 2 ^ 31))
+instance : DecidablePred okI64 := fun i => inferInstanceAs (Decidable (-(2 ^ 63) ≤ i ∧ i < 2 ^ 63))
+instance : DecidablePred okU32 := fun n => inferInstanceAs (Decidable (n < 2 ^ 32))
+instance : DecidablePred okU64 := fun n => inferInstanceAs (Decidable (n < 2 ^ 64))
+instance : DecidablePred okBool := fun _ => inferInstanceAs (Decidable True)
+instance {α : Type} (wf : α → Prop) (enc : α → List Nat) [DecidablePred wf] : DecidablePred (okMsg wf enc) :=
+  fun v => inferInstanceAs (Decidable (wf v ∧ (enc v).length < 2 ^ 64))
+instance {α : Type} (p : α → Prop) [DecidablePred p] : DecidablePred (optAll p)
+  | none => inferInstanceAs (Decidable True)
+  | some a => inferInstanceAs (Decidable (p a))
+instance {α : Type} (p : α → Prop) [DecidablePred p] : DecidablePred (listAll p) :=
+  fun l => inferInstanceAs (Decidable (∀ a ∈ l, p a))
 
 end Litep2pVerif.Wire
